@@ -139,6 +139,59 @@ CHECKS = {
              'non-strict mismatches) are not judged.',
         technique='deterministic simulation: enumerated response-leg faults on real client-server exchanges, reference matcher',
     ),
+    'C11': dict(
+        category='exploration', design_ref='DESIGN.md section 3, C11',
+        text='Twin comparison inside one simulated world: for each seed the schedule-independent part of a scenario is '
+             'drawn first and executed on the synchronous stack and on the asynchronous stack. Server half: the same '
+             'request text (generated, corrupted) and configuration (middlewares, handlers, batch limit) on Dispatcher, '
+             'on AsyncDispatcher with coroutine methods and on AsyncDispatcher with plain functions, under a seeded '
+             'schedule; reply document, codes, executions and per-element chain logs compared. Client half: the same '
+             'scripted transport behaviour (per-attempt faults, retry strategy, tracers) on the sync and async client; '
+             'request documents, sleeps, caller outcome, tracer events and executions compared.',
+        note='No reference model is involved; the false-alarm surface is the projection to schedule-invariant '
+             'observations. The simulator\'s own sync/async instrumentation is equivalent by construction.',
+        technique='deterministic simulation: same seeded scenario on both stacks, schedule-invariant history projection compared',
+    ),
+    'C13': dict(
+        category='exploration', design_ref='DESIGN.md section 3, C13',
+        text='Long-lived shared dispatchers: (a) histories of up to 31 corpus requests, every reply compared with a '
+             'fresh identically configured dispatcher; (b) 2-5 real threads dispatching interleaved corpora on one '
+             'Dispatcher, exactly one running at a time, the scheduler pre-empting at seeded line boundaries inside pjrpc '
+             '(baton passing on sys.settrace); (c) concurrent dispatch tasks on one AsyncDispatcher under seeded '
+             'schedules; (d) 1 / 10 / 1000 dispatches with a fresh context each, for function methods (context by name '
+             'and positional), class-based views and the base / jsonschema / pydantic validators, sync and async, then '
+             'gc.collect() and a census of weak references to contexts, view instances, parsed requests and responses '
+             '(all must be dead), plus the error-class registry unchanged.',
+        note='Trusted: baton scheduler (pre-emption only at line events of pjrpc / service files), CPython gc as the '
+             'oracle for "no strong reference kept". The pydantic variant runs only if a smoke validation succeeds under '
+             'the installed pydantic; the evidence says whether it ran.',
+        technique='deterministic simulation: seeded thread interleavings (baton threads), task schedules, histories; weak-reference leak oracle',
+    ),
+    'C18': dict(
+        category='exploration', design_ref='DESIGN.md section 3, C18',
+        text='The same POST goes through pjrpc\'s aiohttp, Flask and Werkzeug integrations in process (framework request '
+             'parsing is real; no sockets): header faults (each documented type with/without parameters, near-miss, '
+             'unrelated, missing) and body faults (wire corruption, invalid UTF-8) x status-by-error functions x endpoint '
+             'prefixes x batch limits. Each reply is compared with the verdict recorded at the wrapped dispatcher (body '
+             'JSON-equal, application/json, status function applied, 200 + empty body for no verdict, 415 and nothing '
+             'executed for other media types) and the three replies with each other.',
+        note='Trusted: the in-process hops (WSGI test clients; aiohttp handler awaited on SimLoop with a mocked request '
+             'and a real StreamReader). One hop, no clock: weakest simulation content after C01. Known finding: Flask 3.1 '
+             'JSON provider vs pjrpc encoder (see known_findings.json).',
+        technique='deterministic simulation: header/body fault injection on an in-process HTTP hop, relay oracle + cross-framework comparison',
+    ),
+    'C20': dict(
+        category='exploration', design_ref='DESIGN.md section 3, C20',
+        text='The real PjRpcMocker patches the transport method of real sync / async clients and plays the peer; seeded '
+             'histories of up to 10 operations (add result/error/callback with once on/off, replace at an index, remove, '
+             'single and batch calls, positional/named params, hand-built ids incl. 0 and "", 2 endpoints x 2 methods plus '
+             'an unpatched method and an unpatched endpoint, passthrough on/off) are replayed against a queue model; '
+             'the async variant runs 2-3 caller tasks under the seeded loop and linearises them by arrival order. Replies, '
+             'ids, -32601 / passthrough / refusal and mocker.calls are compared.',
+        note='Trusted: ref_mocker (Appendix F.5) and its generator preconditions (remove of existing keys only; '
+             'replace(idx) only while queue order equals addition order; no notifications).',
+        technique='deterministic simulation: seeded operation histories vs executable queue model, concurrent callers linearised by arrival',
+    ),
 }
 
 BUILT = sorted(CHECKS)
